@@ -60,6 +60,13 @@ def gen(chk, tier):
         if L:
             b = list(a); b[-1] ^= 1
             one("cmp_len_%d" % L, op="utils.cmp", a=a, b=b, l=L)
+    # ALL pairs of short strings over small alphabets: whatever way the per-byte differences are
+    # accumulated (or, add, xor, last-only), a wrong accumulator is exposed by some pair here
+    import itertools
+    for alpha, L in (((0, 1, 2, 3, 127, 128, 254, 255), 2), ((0, 1, 2, 255), 3)):
+        for a in itertools.product(alpha, repeat=L):
+            for b in itertools.product(alpha, repeat=L):
+                one("cmp_all_short_pairs", op="utils.cmp", a=list(a), b=list(b), l=L)
     for _ in range(200 if tier == "quick" else 20000):
         a = [rng.choice([0, 255, rng.randrange(256)]) for _ in range(32)]
         b = list(a)
